@@ -48,6 +48,8 @@ CHECKS["C08"] = dict(
                bounds="canonical pre-state: 1 next-hop, 1 group (either instance; optional backup id: missing/self/other), 1 top-level entry (either instance, optional cross-instance reference); Flush of {default}, {vrf} or both"),
           dict(pkg="rib", harness="VfC08_flush_qx", reach=["end", "pre-built"], opts=dict(only=["C08:", "C01:", "C03:"]),
                bounds="a next-hop and a group in each instance, 2 IPv4 entries in either instance (implicit and explicit group instances); Flush of {default}, {vrf} or both; THEN three symbolic operations in one instance - next-hop ADD, group ADD, group DELETE (symbolic ids) - judged against the referrers that survived the Flush (entries of the other instance still pointing into the flushed one)"),
+          dict(pkg="rib", harness="VfC08_flush_history", reach=["end", "pre-built", "post-delete-refused", "referrer-deleted"], opts=dict(only=["C08:", "C01:", "C03:"]),
+               bounds="fixed shape, symbolic choices: next-hop + group g (symbolic id) in DEFAULT, an IPv4 / IPv6 / label entry of VRF-A pointing at it; Flush of DEFAULT only; optionally DELETE of the dangling entry while the group is absent; next-hop and group programmed again; DELETE of the group - refused exactly while an installed entry points at it; whole-RIB view (RIBContents) read before and after"),
           dict(pkg="rib", harness="VfC08_flush_big", reach=["end", "pre-built"], opts=dict(only=["C08:", "C01:", "C03:"]),
                bounds="scale: the large pre-state of VfRIB_big (16 next-hops, 8 groups, 12 top-level entries, cross-instance references, 9 held operations); Flush of {default}, {vrf} or both (VRF first); then one further symbolic next-hop / group operation"),
           dict(pkg="rib", harness="VfC08_flush_t", reach=["end", "pre-built"], quick=dict(skip=True), opts=dict(only=["C08:", "C01:", "C03:"]),
@@ -61,7 +63,7 @@ CHECKS["C08"] = dict(
 
 CHECKS["C09"] = dict(
     runs=[dict(pkg="server", harness="VfC09_modify2", reach=["end", "terminated", "clean"], thorough=dict(skip=True),
-               bounds="real Server.Modify (3 goroutines, channels) on a scripted stream of 2 symbolic messages (an operation message carries 1-2 operations, each with its own optional election stamp) then EOF; one other live session with arbitrary parameters; arbitrary election state; deterministic schedule"),
+               bounds="real Server.Modify (3 goroutines, channels) on a scripted stream of 2 symbolic messages (an operation message carries 1-2 operations, each with its own optional election stamp; all combinations of two or three populated fields) then EOF; one other live session with arbitrary parameters; arbitrary election state; deterministic schedule"),
           dict(pkg="server", harness="VfC09_session3", reach=["end", "terminated", "clean"],
                bounds="as modify2 with the script [session parameters, election announcement, operation message of 1-2 operations]: shapes fixed, every content symbolic (modes, 128-bit ids, each operation's own optional stamp)"),
           dict(pkg="server", harness="VfC09_modify3", reach=["end", "terminated", "clean"], quick=dict(skip=True),
@@ -110,13 +112,15 @@ _B["VfRIB_t3e"] = "histories from the EMPTY two-instance RIB: THREE consecutive 
 _RT = [(h, _B[h]) for h in ("VfRIB_t1", "VfRIB_t1r", "VfRIB_t2", "VfRIB_tOrder")]
 _RIBNOTE = "Trusted: go/ssa, gosym, z3, the Go models of candidateRIB/MergeStructInto (validated natively by TestVfModelAgreement on the modelled fields), the reference RIB in harness/rib/vf_ref.go. Payload = key, group reference (+instance), entry metadata, decapsulate-header, popped label stack, group members/weights/backup/colour, next-hop network-instance / pop-top-label / encapsulation headers / address / MAC / interface reference / IP-in-IP / pushed label stack / MPLS and UDPv6 encapsulation headers; other encap-header kinds, GRE, VNI, tunnel source address and enumerated labels in stacks are outside."
 _FLUSH_IN_C01 = [dict(pkg="rib", harness="VfC08_flush_q", reach=["end"], thorough=dict(skip=True), opts=dict(only=["C01:"]), bounds="interleaved flushes: tables after Flush of {default}, {vrf} or both equal the fold (see C08)"),
-                 dict(pkg="rib", harness="VfC08_flush_qx", reach=["end"], opts=dict(only=["C01:"]), bounds="interleaved flushes with cross-instance references and three further operations (see C08)")]
+                 dict(pkg="rib", harness="VfC08_flush_qx", reach=["end"], opts=dict(only=["C01:"]), bounds="interleaved flushes with cross-instance references and three further operations (see C08)"),
+                 dict(pkg="rib", harness="VfC08_flush_history", reach=["end"], opts=dict(only=["C01:"]), bounds="whole-RIB view (RIBContents) read before and after a Flush, then deletes and re-programming (see C08)")]
 CHECKS["C01"] = dict(runs=_rib(["C01:"], _RQ + _RE + _RS, _RT) + _FLUSH_IN_C01, assumptions=["pre-states are reference-closed states built by the canonical history (next-hops, groups, entries, held operations); one or two further symbolic operations"],
     level_text="Differential bounded symbolic execution of the real RIB (AddEntry/DeleteEntry and everything below) against a reference fold of the acknowledged operations: after every operation the real tables equal the fold, for every value of the symbolic keys/payloads/instance names.", level_note=_RIBNOTE)
 CHECKS["C02"] = dict(runs=_rib(["C02:"], _RQ + _RS, _RT), assumptions=["as C01"],
     level_text="Same exploration as C01, checking that every acknowledgement happened in a state where the operation was valid and resolvable, that held operations are kept exactly while unresolvable, for every order of the held-operation walk (thorough).", level_note=_RIBNOTE)
 CHECKS["C03"] = dict(runs=_rib(["C03:"], _RQ + _RS, _RT) + [dict(pkg="rib", harness="VfC08_flush_q", reach=["end"], thorough=dict(skip=True), opts=dict(only=["C03:"]), bounds="reference counters after Flush (see C08)"),
                                                     dict(pkg="rib", harness="VfC08_flush_qx", reach=["end", "post-delete-refused"], opts=dict(only=["C03:"]), bounds="reference counters after Flush, entries and groups in both instances, and the verdict of a group DELETE after re-programming (see C08)"),
+                                                    dict(pkg="rib", harness="VfC08_flush_history", reach=["end", "post-delete-refused", "referrer-deleted"], opts=dict(only=["C03:"]), bounds="reference counters across Flush, deletion of a dangling referrer and re-programming (see C08)"),
                                                     dict(pkg="rib", harness="VfC08_flush_big", reach=["end", "pre-built"], opts=dict(only=["C03:"]), bounds="reference counters after Flush of the large pre-state and one further operation (see C08)"),
                                                     dict(pkg="rib", harness="VfC08_flush_t", reach=["end"], quick=dict(skip=True), opts=dict(only=["C03:"]), bounds="reference counters after Flush (see C08)")],
     assumptions=["as C01"],
@@ -138,6 +142,8 @@ CHECKS["C06"] = dict(
                bounds="doModify/modifyEntry/real RIB: elected primary with FIB-ack on/off, 0-1 held operation, a request of 1-2 symbolic operations (next-hop / group / IPv4 entry; ADD/REPLACE/DELETE; any instance name incl. empty and unknown; symbolic keys and references)"),
           dict(pkg="server", harness="VfC06_handover", reach=["end"],
                bounds="hand-over of the primary role while an operation is held: one scripted history with symbolic member / next-hop index"),
+          dict(pkg="server", harness="VfC06_cascade8", reach=["end"], opts=dict(unwind=64),
+               bounds="ONE next-hop ADD resolves nine held operations (a group and eight IPv4 entries): 10 operations / up to 20 results in one answer, FIB-ack on/off: every id answered once per status, RIB_PROGRAMMED before FIB_PROGRAMMED for every id"),
           dict(pkg="server", harness="VfC06_heldAcrossElection", reach=["end"],
                bounds="an operation of the primary is held; the same session re-announces ANY 128-bit id >= its own; then the resolving operation stamped with the new id: both answered exactly once, both installed, nothing left held; FIB-ack on/off"),
           dict(pkg="server", harness="VfC06_halfClose", reach=["end"], validate=0, replay_attempts=30, replay_candidates=6, opts=dict(unwind=16),
@@ -159,6 +165,7 @@ CHECKS["C16"] = dict(
           dict(pkg="rib", harness="VfC16_flush", reach=["end", "pre-built"], opts=dict(only=["C16:"]), bounds="notifications issued by Flush of {default}, {vrf}, both"),
           dict(pkg="rib", harness="VfC16_resolved", reach=["end", "back-to-back"], replay_attempts=5, opts=dict(only=["C16:"]), bounds="resolved-entry hook: ADD then DELETE of a symbolic IPv4/IPv6/MPLS entry, the consumer running after each change or only after both (back to back); snapshots checked for content at the moment of the change, privacy and stability"),
           dict(pkg="rib", harness="VfC16_resolvedCascade", reach=["end"], opts=dict(only=["C16:"]), bounds="resolved-entry hook for an IPv4 entry that was held (in either instance, waiting for a group of the default instance, implicit or explicit reference) and is installed by the cascade of the group's ADD: instance named in the notification and snapshot content"),
+          dict(pkg="rib", harness="VfC16_hookVsNewInstance", reach=["end"], validate=0, replay_attempts=20, opts=dict(only=["C16:"], unwind=16), bounds="the hook is registered WHILE a network instance is being created (two goroutines, every schedule with up to 2 pre-emptive context switches): a later change in the new instance reaches the consumer"),
           dict(pkg="server", harness="VfC16_serverHooks", reach=["end"], bounds="server.New with the hook and VRF options in either order, plus AddNetworkInstance afterwards; one change per instance")],
     assumptions=["ygot.DeepCopy is modelled as a structural deep copy of the heap graph"],
     level_text="Bounded symbolic execution: a consumer folding the notifications is compared with the reference state after every operation, cascade and Flush; server construction is executed for both option orders.",
@@ -173,6 +180,8 @@ CHECKS["C07"] = dict(
                bounds="extended payload: 1 next-hop with one of 13 payload shapes (address, MAC, interface / subinterface reference, IP-in-IP, pushed label stack of 1-3 labels, all of them; symbolic valid content), 1 group, 1 IPv4/IPv6 entry with a decapsulate-header or 1 label entry with a popped stack of 1-2 labels; GetRIB of either instance with each of the 6 filters; every field and the ORDER of the stacks compared"),
           dict(pkg="rib", harness="VfC07_getRIB_eh", reach=["end", "pre-built", "all"], opts=dict(only=["C07:"]),
                bounds="encapsulation headers: 1 next-hop with an MPLS header (stack of 2, traffic class), a UDPv6 header with every field, or two headers in either index order (symbolic valid content), 1 group; GetRIB with each filter; headers matched by index, every field compared"),
+          dict(pkg="rib", harness="VfC07_getAfterCascade", reach=["end", "pre-built"], opts=dict(only=["C07:"]),
+               bounds="an IPv4 / IPv6 / label entry held in either instance for a group of the default instance is installed by the cascade of the group's ADD: Get(ALL) of both instances and FromGetResponses show it in its OWN instance"),
           dict(pkg="rib", harness="VfC07_getHistory", reach=["end", "pre-built", "flushed", "deleted", "shrunk"], opts=dict(only=["C07:", "C08:"]),
                bounds="reads interleaved with changes: program next-hop(address+MAC) / group / label entry(popped stack) / IPv4 entry(decapsulate-header), Get(ALL), then nothing / Flush / DELETE of everything / re-programming the same keys with a strict subset of their payload (+ Get), then re-program under symbolic keys (equal to the old ones or not) with payloads of a different kind (interface reference + pushed stack of 3, other stack, other header), Get(ALL), Get(NEXTHOP), Get(MPLS): every Get reflects the state at its moment"),
           dict(pkg="rib", harness="VfC07_getRIB_p2", reach=["end", "pre-built", "all"], quick=dict(skip=True), opts=dict(only=["C07:"]),
@@ -189,6 +198,8 @@ CHECKS["C13"] = dict(
                bounds="client in RIB-ack or FIB-ack mode after StartSending; 0-2 operations queued in separate requests or in ONE request (symbolic ids - equal ids included -, ADD/REPLACE, IPv4/group/MPLS, symbolic key), handshake answered or not; ONE response of any shape: 1-2 results (symbolic id, status in {FAILED,RIB_PROGRAMMED,FIB_PROGRAMMED,FIB_FAILED,UNSET}), election, session parameters, or mixed content; then the convergence check"),
           dict(pkg="client", harness="VfC13_recvViolation", reach=["end"], validate=0, replay_attempts=30, opts=dict(unwind=40),
                bounds="the REAL receive loop (Connect's sender / receiver goroutines on a scripted stream): 1-2 operations queued; the answer completes the last pending operation and also carries a result for an id never sent; AwaitConverged runs concurrently - every schedule with up to 2 pre-emptive context switches at synchronisation points; it never reports success"),
+          dict(pkg="client", harness="VfC14_endedThenQueue", reach=["end", "queued"], validate=2, opts=dict(unwind=40, only=["C13:"], timeout_s=600),
+               bounds="accounting on a dead stream: the server ended the RPC, then 3 requests are handed to Q: each operation is queued, pending or resulted, or an error is recorded (see C14)"),
           dict(pkg="client", harness="VfC13_accounting_t", reach=["end", "pre-built", "await-ok", "await-errors"], quick=dict(skip=True),
                bounds="as accounting_q (1 operation queued before, IPv4 / group / MPLS kinds) with all three operation types and TWO consecutive responses (RIB-before-FIB sequences, duplicate terminal results, results after completion)")],
     assumptions=["responses are delivered to handleModifyResponse as the receiver goroutine does (errors recorded with addReadErr); goroutine scheduling of Connect is C14's subject",
@@ -234,9 +245,11 @@ CHECKS["C18"] = dict(
 
 CHECKS["C15"] = dict(
     runs=[dict(pkg="rib/reconciler", harness="VfC15_reconcile_q", load=["rib/reconciler"], reach=["end", "built"], thorough=dict(skip=True), opts=dict(only=["C15:"]),
-               bounds="intended and target RIB each built canonically with symbolic contents (1 next-hop, 1 group <=1 member, 1 IPv4/MPLS entry in either of two instances, all optional), optionally a third instance only the target has (one next-hop); Reconcile, operations applied to the target's real RIB in the documented order, result compared with the intended reference; second Reconcile must be empty; symbolic id base"),
+               bounds="intended and target RIB each built canonically with symbolic contents (1 next-hop, 1 group <=1 member, 1 IPv4/MPLS entry in either of two instances, all optional), optionally a third instance only the target has (one next-hop); Reconcile, operations applied to the target's real RIB in the documented order, result compared with the intended reference; second Reconcile must be empty; then a tear-down Reconcile towards an empty intended RIB whose deletes must all succeed; symbolic id base"),
           dict(pkg="rib/reconciler", harness="VfC15_reconcile_qx", load=["rib/reconciler"], reach=["end", "built"], opts=dict(only=["C15:"]),
                bounds="cross-instance references: on each side next-hop 1 in both instances, an optional group (symbolic id) in each instance, one optional IPv4 entry (symbolic prefix / group id) in either instance whose group instance is unset (its own instance) or explicit (either instance); Reconcile, apply in order, compare, second Reconcile empty"),
+          dict(pkg="rib/reconciler", harness="VfC15_reconcile_qw", load=["rib/reconciler"], reach=["end", "built"], opts=dict(only=["C15:"]),
+               bounds="weighted groups: 1 next-hop + 1 group (<=1 member with an optional weight of any value) per side; Reconcile, apply, compare, second Reconcile empty, then a tear-down Reconcile towards an empty intended RIB whose deletes must all succeed"),
           dict(pkg="rib/reconciler", harness="VfC15_reconcile_t", load=["rib/reconciler"], reach=["end", "built"], quick=dict(skip=True), opts=dict(only=["C15:"]),
                bounds="as reconcile_q with 2 next-hops per side (swaps of the group's next-hop), IPv4 entries")],
     assumptions=["LocalRIB targets only; RemoteRIB (gRPC Get + FromGetResponses) is covered by C07's FromGetResponses check, the transport is outside", "ConcreteXXXProto / candidateRIB / MergeStructInto / DeepCopy / DeepEqual are the models and structural stubs of DESIGN.md section 4"],
@@ -245,12 +258,12 @@ CHECKS["C15"] = dict(
 
 CHECKS["C10"] = dict(
     runs=[dict(pkg="server", harness="VfC10_modifyCut", reach=["end", "cut-done", "probe-done", "with-standby"], validate=2,
-               bounds="real Server.Modify (3 goroutines), optionally with a standby session attached that announced ANY lower 128-bit id before, on a scripted session [params, election, ADD, batch of 2 ADDs] cut off after 0-4 messages by EOF / Canceled / transport error, or whose Send fails from response 0-4 on (incl. between the results of one request); then a probe: new session (negotiate, higher id, ADD), Get, Flush; deterministic schedule"),
+               bounds="real Server.Modify (3 goroutines), optionally with a standby session attached that announced ANY lower 128-bit id before, on a scripted session [params, election, ADD, batch of 2 ADDs] cut off after 0-4 messages by EOF / Canceled / transport error (optionally with every later Send failing too), or whose Send fails from response 0-4 on (incl. between the results of one request); then a probe: new session (negotiate, higher id, ADD), Get, Flush; deterministic schedule"),
           dict(pkg="server", harness="VfC10_getCut", reach=["end", "cut-done", "probe-done"], validate=2,
                bounds="real Server.Get over 3 installed next-hops whose stream fails after 0-3 responses; then the same probe (its ADD writes to the instance the abandoned Get was reading)"),
-          dict(pkg="server", harness="VfC10_modifyCutSched", reach=["end"], quick=dict(skip=True), validate=0, replay_attempts=20, opts=dict(unwind=16),
+          dict(pkg="server", harness="VfC10_modifyCutSched", reach=["end"], validate=0, replay_attempts=20, opts=dict(unwind=16),
                bounds="as modifyCut with up to 2 pre-emptive context switches at synchronisation points (channel operations, mutexes, atomics, select)"),
-          dict(pkg="server", harness="VfC10_getCutSched", reach=["end"], quick=dict(skip=True), validate=0, replay_attempts=20, opts=dict(unwind=16),
+          dict(pkg="server", harness="VfC10_getCutSched", reach=["end"], validate=0, replay_attempts=20, opts=dict(unwind=16),
                bounds="as getCut with up to 2 pre-emptive context switches")],
     assumptions=["transport faults are modelled as errors returned by the stream's Recv/Send at the chosen index", "goroutines run as coroutines switching only at synchronisation operations (sound for data-race-free code; C11 checks the lock discipline)",
                  "a goroutine left blocked without holding a lock is counted but is not a violation of the property as stated"],
@@ -259,10 +272,10 @@ CHECKS["C10"] = dict(
 
 CHECKS["C14"] = dict(
     runs=[dict(pkg="client", harness="VfC14_fault", reach=["end", "reset-done", "done-signalled"], validate=2, opts=dict(unwind=40),
-               bounds="real Connect (sender + receiver goroutines) against a scripted conformant stream with ONE fault: Send failing from index 0-3 (immediately, or slowly while the application keeps queueing) or Recv failing after 0-3 responses, 3 status classes; a burst of 8 queued requests (> buffer 5 + in flight); then AwaitConverged, Done, Close (optional), Reset, reconnect on a healthy stream, one more exchange; deterministic schedule"),
+               bounds="real Connect (sender + receiver goroutines) against a scripted conformant stream with ONE fault: Send failing from index 0-3 (immediately, or slowly while the application keeps queueing) or Recv failing after 0-3 responses, 3 status classes; a burst of 8 requests (> buffer 5 + in flight) queued after StartSending or BEFORE it (flushed by StartSending); then AwaitConverged, Done, Close (optional), Reset, reconnect on a healthy stream, one more exchange; deterministic schedule"),
           dict(pkg="client", harness="VfC14_faultSched", reach=["end"], quick=dict(skip=True), validate=0, replay_attempts=10, opts=dict(unwind=40),
                bounds="as fault with one pre-emptive context switch at any synchronisation point"),
-          dict(pkg="client", harness="VfC14_endedThenQueue", reach=["end"], validate=2, opts=dict(unwind=40),
+          dict(pkg="client", harness="VfC14_endedThenQueue", reach=["end", "queued"], validate=2, opts=dict(unwind=40, timeout_s=600),
                bounds="the server ends the RPC with an OK status while the client is idle (after the handshake and 0-2 answered operations); then 3 further requests are queued: the calls return, the terminated stream (Send returns io.EOF) is recorded as an error, AwaitConverged returns it, Close returns"),
           dict(pkg="client", harness="VfC14_resetCloseError", reach=["end", "reset-done"], validate=2, opts=dict(unwind=40),
                bounds="a fault that arrives while Reset is running: the server answers Reset's own half-close with one of 3 non-OK statuses, after 0-2 answered operations; after Reset no error is left and an exchange on a fresh stream converges"),
@@ -273,7 +286,8 @@ CHECKS["C14"] = dict(
     level_note="Trusted: go/ssa, gosym scheduler (context bound per run), z3.")
 
 CHECKS["C11"] = dict(
-    runs=[dict(pkg="server", harness="VfSelf_atomicPointer", reach=["end"], validate=1, bounds="engine self-test: sync/atomic.Pointer[T] Load / Store / CompareAndSwap / Swap keep what was stored (compared with the native run)"),
+    runs=[dict(pkg="server", harness="VfSelf_strOrder", reach=["end"], validate=1, bounds="engine self-test: < <= > >= on symbolic strings, sort.Strings and sort.SearchStrings form one consistent strict total order per path (compared with the native run on the solver's inputs)"),
+          dict(pkg="server", harness="VfSelf_atomicPointer", reach=["end"], validate=1, bounds="engine self-test: sync/atomic.Pointer[T] Load / Store / CompareAndSwap / Swap keep what was stored (compared with the native run)"),
           dict(pkg="server", harness="VfC11_lockset", reach=["end"], lockset=True, validate=0,
                bounds="roles: two sessions (connect, negotiate, announce a symbolic id, operate with a symbolic operation, disconnect), a Get(ALL) reader, a Flush caller (no id / override / symbolic id), all from one shared server state with two instances; every path of every handler; accesses to objects of the shared state are logged with the held lock set"),
           dict(pkg="server", harness="VfC11_concurrentElections", reach=["end"], validate=0, replay_attempts=3, opts=dict(unwind=16),
